@@ -129,6 +129,15 @@ fn enumerate(ctx: &Ctx) -> Box<dyn Iterator<Item = Case>> {
             }
         }
     }
+    // long texts (4 KiB and 64 KiB marks): exact size, one byte short, with slack
+    for &kind in &[1u32, 2, 3] {
+        for n in [4094usize, 4095, 4096, 4097, 65535, 65536] {
+            let exact = mb2_model::encode::conformant_tag(kind, 0xC05, n, 0).len() as u32;
+            for size in [exact, exact - 1, exact - 8, exact + 1] {
+                v.push(Case { hdr: false, kind, img: Hex(sweep_image(false, kind, n, 0, size)) });
+            }
+        }
+    }
     // framebuffer palette: every interesting colour count at a fixed tag size
     for n in [0usize, 1, 2, 5] {
         let exact = (32 + 2 + 3 * n) as u32;
